@@ -242,11 +242,117 @@ def run_invert(lst):
         S.sample(before)
 
 
+# ---------------------------------------------------------------------------------------
+# histories: the answer to a question does not depend on what was asked (or refused) before
+# ---------------------------------------------------------------------------------------
+def _history_calls(small):
+    calls = []
+    for a in (("C", "Eb") if small else ("C", "E", "G", "Eb")):
+        for b in (("E", "F") if small else ("E", "B", "C#", "F")):
+            calls.append(("determine", (a, b, True)))
+            calls.append(("determine", (a, b)))
+    for n in (("C", "E") if small else ("C", "E", "Eb")):
+        for sh in (("b3", "5") if small else ("3", "b3", "5", "#4")):
+            for up in (True, False):
+                calls.append(("from_shorthand", (n, sh, up)))
+    # refused questions (how they are refused is not judged, only that they are refused the same way every time)
+    calls += [("determine", ("G-4", "B")), ("determine", ("C", "Hb", True)), ("from_shorthand", ("Cx", "3")),
+              ("from_shorthand", ("C", "9")), ("from_shorthand", ("E", "b3x", False))]
+    return calls
+
+
+HCALLS = _history_calls(True)
+_HBASE = {}
+
+
+def _hdo(i):
+    name, args = HCALLS[i]
+    try:
+        return ["ok", getattr(intervals, name)(*args)]
+    except Exception as e:                              # noqa
+        return ["raised", type(e).__name__]
+
+
+def _hbase(i):
+    import importlib
+    if i not in _HBASE:
+        importlib.reload(intervals)
+        _HBASE[i] = _hdo(i)
+    return _HBASE[i]
+
+
+def run_history3(case):
+    """case = [i, j]: for every third call k, the sequence (i, j, k) from a cold module; every answer must be the
+    answer the same question gets as the first question of a cold module."""
+    import importlib
+    S = engine.S
+    i, j, which = case
+    want = _history_calls(which == "small")
+    if HCALLS != want:
+        HCALLS[:] = want
+        _HBASE.clear()
+    bi, bj = _hbase(i), _hbase(j)
+    for k in range(len(HCALLS)):
+        bk = _hbase(k)
+        importlib.reload(intervals)
+        got = [_hdo(i), _hdo(j), _hdo(k)]
+        S.trans(3)
+        for pos, (g, b, c) in enumerate(zip(got, (bi, bj, bk), (i, j, k))):
+            if g != b:
+                S.problem("intervals.%s%r as call %d of the history %s" % (HCALLS[c][0], HCALLS[c][1], pos + 1,
+                          [HCALLS[x][0] + repr(HCALLS[x][1]) for x in (i, j, k)[:pos + 1]]), b, g)
+                return
+    S.count("histories_of_three_calls", len(HCALLS))
+    S.outcome((i, j))
+
+
+def run_long_history(case):
+    """One long history in one cold module: a fixed list of questions, then every diatonic step in every key (the
+    functions of the same module that C04 is about), then the same questions again."""
+    import importlib
+    S = engine.S
+    order, which = case
+    want = _history_calls(which == "small")
+    if HCALLS != want:
+        HCALLS[:] = want
+        _HBASE.clear()
+    importlib.reload(intervals)
+    idx = list(range(len(HCALLS)))
+    if order == "reversed":
+        idx.reverse()
+    first = [(i, _hdo(i)) for i in idx]
+    work = 0
+    for key in P.KEYS30:
+        for L in "CDEFGAB":
+            for fn in ("unison", "second", "third", "fourth", "fifth", "sixth", "seventh"):
+                for acc in ("", "#", "b"):
+                    try:
+                        getattr(intervals, fn)(L + acc, key)
+                    except Exception:                   # noqa -- C04's subject
+                        pass
+                    work += 1
+    S.trans(work)
+    again = [(i, _hdo(i)) for i in idx]
+    for (i, a), (_, b) in zip(first, again):
+        if a != b:
+            S.problem("intervals.%s%r asked again after %d diatonic steps in all 30 keys" % (HCALLS[i][0], HCALLS[i][1], work), a, b)
+            break
+    # and against the cold single-call answers
+    for (i, a) in first:
+        if a != _hbase(i):
+            S.problem("intervals.%s%r in a sequence of %d questions (%s order)" % (HCALLS[i][0], HCALLS[i][1], len(idx), order), _hbase(i), a)
+            break
+    S.count("long_histories")
+    S.outcome((order, work))
+
+
 CLAUSES = {
     "determine": run_determine,
     "shorthand": run_shorthand,
     "invert": run_invert,
     "after_refusal": run_after_refusal,
+    "history3": run_history3,
+    "long_history": run_long_history,
 }
 
 _PAIR_NAMES = [[]]
@@ -306,7 +412,15 @@ def explore(ctx):
     if ctx.want("after_refusal"):
         # one worker process per letter: the refusals really are the first thing that process asks about it
         ctx.product("after_refusal", list("CDEFGAB"), lambda L: [L])
+    which = "small" if ctx.tier == "quick" else "full"        # (the other clauses run their thorough bounds in both tiers)
+    HCALLS[:] = _history_calls(which == "small")
+    if ctx.want("history3"):
+        ctx.bound("history3", "every sequence of 3 calls over %d calls (determine both forms, from_shorthand up/down, refused calls), each from a cold module" % len(HCALLS))
+        ctx.product("history3", list(range(len(HCALLS))), lambda i: ([i, j, which] for j in range(len(HCALLS))))
+    if ctx.want("long_history"):
+        ctx.product("long_history", ["forward", "reversed"], lambda o: [[o, which]])
     if not ctx.only:
+        ctx.guard("histories of three calls", ctx.counter("histories_of_three_calls"), len(HCALLS) ** 3)
         ctx.guard("letters checked after refusals", ctx.counter("letters_checked_after_refusals"), 7)
         ctx.guard("pairs in scope", ctx.counter("pairs_in_scope"), 500)
         ctx.guard("pairs out of scope (skipped)", ctx.counter("pairs_out_of_scope"), 1)
